@@ -608,7 +608,7 @@ func c15CqResult(n *c15Node) string {
 	return "(Some (RErr ERegMissing))" // unclassified errors are reported by a monitor as well
 }
 
-func (e *c15Env) coqCase(f c15Final) string {
+func (e *c15Env) coqOpsEvs() (string, string) {
 	ops := make([]string, len(e.nodes))
 	for i, n := range e.nodes {
 		ops[i] = c15CqOp(n.op)
@@ -630,6 +630,11 @@ func (e *c15Env) coqCase(f c15Final) string {
 		}
 		evs[i] = strconv.Itoa(2 * (expired + 2*(pick+8*ev.Node)))
 	}
+	return cqList(ops), "[" + strings.Join(evs, ";") + "]"
+}
+
+func (e *c15Env) coqCase(f c15Final) string {
+	opsS, evsS := e.coqOpsEvs()
 	res := make([]string, len(e.nodes))
 	for i, n := range e.nodes {
 		res[i] = c15CqResult(n)
@@ -643,7 +648,7 @@ func (e *c15Env) coqCase(f c15Final) string {
 		}
 		regItems = append(regItems, fmt.Sprintf("(%d, E %s %s %s)", d, c15CqVer(en.Cur.Ver), c15CqInts(en.Cur.Colls), prev))
 	}
-	return fmt.Sprintf("CRun %s %s %s (Fin %s %s %s)", cqList(ops), "["+strings.Join(evs, ";")+"]", cqList(res),
+	return fmt.Sprintf("CRun %s %s %s (Fin %s %s %s)", opsS, evsS, cqList(res),
 		cqBool(f.RegExists), cqList(regItems), c15CqCfgs(f.Cfgs))
 }
 
@@ -795,12 +800,13 @@ type c15Outcome struct {
 }
 
 type c15Harness struct {
-	t       *testing.T
-	ctx     context.Context
-	rec     *vRecorder
-	cluster *base.RosmarCluster
-	nScen   int
-	nCalls  int
+	t         *testing.T
+	ctx       context.Context
+	rec       *vRecorder
+	cluster   *base.RosmarCluster
+	nScen     int
+	nCalls    int
+	nUnlinked int // racing scenarios whose final store violates version_linkage (all must violate a schedule condition)
 }
 
 func c15OpStrings(ops []c15Op) []string {
@@ -907,6 +913,16 @@ func (h *c15Harness) runScenario(stream string, sc c15Scenario) *c15Outcome {
 	}
 	h.rec.Size(fmt.Sprintf("events=%03d+", (len(env.events)/10)*10))
 	h.rec.Case(stream, kind, env.coqCase(f), desc, nontrivial)
+	if !sc.Seq {
+		// the racing theorems on the real outcome: whenever the schedule satisfies the four conditions of ProtoRace.v
+		// (evaluated in Coq), the store the real code ended in must satisfy version_linkage
+		_, linkOK := c15MonLinkage(f)
+		opsS, evsS := env.coqOpsEvs()
+		h.rec.Case(stream, "hyp", fmt.Sprintf("CHyp %s %s %s", opsS, evsS, cqBool(linkOK)), desc, !linkOK)
+		if !linkOK {
+			h.nUnlinked++
+		}
+	}
 
 	// ----- monitors -----
 	adopted := false
@@ -1298,6 +1314,73 @@ func (h *c15Harness) corpus() {
 		out := h.runScenario("corpus", sc)
 		h.raceMonitors(out)
 	}
+	// races of the unchanged code that need NO stalled node (C15_Refuted.v 4b, 4c) and the late fence (4d)
+	P := func(o c15Op) c15Op { o.Patient = true; return o }
+	stall := []c15Scenario{
+		// node 0 (create db1) reads the registry; node 1 creates db1 completely; node 0's waitForConfigDelete("")
+		// times out and deletes the config document of the acknowledged create
+		{Name: "corpus/stale-wait-deletes-acked-create", Ops: []c15Op{c15Ins(1, 1, 1), c15Ins(1, 2, 1), c15Ld()},
+			Dirs: []c15Dir{S(0, 1), E(1), E(0), E(2)}},
+		// the same with an update request for a database that does not exist yet
+		{Name: "corpus/stale-wait-update-deletes-acked-create", Ops: []c15Op{c15Upd(1, 1, 1), c15Ins(1, 2, 1), c15Ld()},
+			Dirs: []c15Dir{S(0, 1), E(1), E(0), E(2)}},
+		// node 1 deletes db1 (config document gone), node 2 creates db1 and is acknowledged, node 1's finalize
+		// removes the new registry entry: nobody waits, nobody times out (all nodes patient)
+		{Name: "corpus/delete-finalize-removes-acked-create", Ops: []c15Op{c15Ins(1, 1, 1), P(c15Del(1)), P(c15Ins(1, 2, 2)), P(c15Ld()), c15Ld()},
+			Dirs: []c15Dir{E(0), S(1, 4), E(2), E(1), E(3), E(4)}},
+		// a loader writes its roll-back fence long after its decision (stalled): the creator that re-attempts an
+		// interrupted delete has its error swallowed and writes a registry entry over the old config document
+		{Name: "corpus/late-fence-wedges-database", Ops: []c15Op{c15Ins(1, 1, 1), c15Upd(1, 2, 1), c15Ld(), c15Ld(), c15Del(1), c15Ins(1, 3, 1), c15Ld()},
+			Dirs: []c15Dir{E(0), S(1, 3), X(1), S(3, 2), S(2, 4), S(3, 1), E(2), S(4, 3), X(4), S(5, 2), S(3, 1), E(5), E(3), E(6)}},
+	}
+	for _, sc := range stall {
+		out := h.runScenario("corpus", sc)
+		if !strings.Contains(sc.Name, "late-fence") {
+			h.ackedRaceMonitor(out)
+		}
+	}
+}
+
+// acked_not_lost for the hand-written races above: every acknowledged create must be what the store shows when all
+// nodes have finished, unless a LATER acknowledged change of the same database replaced it -- and two creates of the
+// same database must not both be acknowledged
+func (h *c15Harness) ackedRaceMonitor(out *c15Outcome) {
+	if !out.ok {
+		return
+	}
+	f := out.final
+	acked := map[int][]*c15Node{}
+	for _, n := range out.env.nodes {
+		if n.done && !n.crashed.Load() && n.res.Kind == "ok" && n.op.Kind == c15Insert {
+			acked[n.op.DB] = append(acked[n.op.DB], n)
+		}
+	}
+	deleted := map[int]bool{}
+	for _, n := range out.env.nodes {
+		if n.op.Kind == c15Delete {
+			deleted[n.op.DB] = true
+		}
+	}
+	for d, ns := range acked {
+		if len(ns) > 1 && !deleted[d] {
+			h.rec.Fail("acked_not_lost_racing", "acked:create-lost-to-stale-wait-for-config-delete", out.desc,
+				fmt.Sprintf("%d creates of db%d were acknowledged (no delete in between): %s and %s; the store holds config %v", len(ns), d, ns[0].op, ns[1].op, f.Cfgs[d]))
+			continue
+		}
+		n := ns[len(ns)-1]
+		want := c15Ver{Gen: 1, Dig: uint64(n.op.Dig)}
+		en, hasReg := f.Reg[d]
+		cfg, hasCfg := f.Cfgs[d]
+		switch {
+		case hasReg && hasCfg && en.Cur.Ver == want && cfg.Ver == want:
+		case deleted[d] && !hasReg && hasCfg && cfg.Ver == want:
+			h.rec.Fail("acked_not_lost_racing", "acked:create-lost-to-concurrent-delete-finalize", out.desc,
+				fmt.Sprintf("%s was acknowledged, all nodes have finished, but its registry entry is gone and the config document %v is an orphan", n.op, cfg))
+		case !deleted[d]:
+			h.rec.Fail("acked_not_lost_racing", "acked:create-lost-to-stale-wait-for-config-delete", out.desc,
+				fmt.Sprintf("%s was acknowledged, all nodes have finished, but the store shows registry %v (present=%v) / config %v (present=%v)", n.op, en, hasReg, cfg, hasCfg))
+		}
+	}
 }
 
 func TestVerifC15(t *testing.T) {
@@ -1321,7 +1404,11 @@ func TestVerifC15(t *testing.T) {
 	h.races()
 	t3 := time.Now()
 	h.random(vNewRand(vSeed()))
+	t4 := time.Now()
+	h.applyStream(vNewRand(vSeed() + 15))
+	rec.Extra("apply_seconds", time.Since(t4).Seconds())
+	rec.Extra("racing_scenarios_ending_unlinked", h.nUnlinked)
 	rec.Extra("scenarios", h.nScen)
 	rec.Extra("storage_calls", h.nCalls)
-	rec.Extra("seconds", map[string]float64{"corpus": t1.Sub(t0).Seconds(), "crash": t2.Sub(t1).Seconds(), "races": t3.Sub(t2).Seconds(), "random": time.Since(t3).Seconds()})
+	rec.Extra("seconds", map[string]float64{"corpus": t1.Sub(t0).Seconds(), "crash": t2.Sub(t1).Seconds(), "races": t3.Sub(t2).Seconds(), "random": t4.Sub(t3).Seconds()})
 }
